@@ -120,7 +120,28 @@ func init() {
 		Assume:    []string{"sequential histories with quiescence after each step"}}
 	Checks["C12"] = &CheckDef{Prop: "C12", Rule: seqRule,
 		Technique: "explicit-state model checking of the real code: BFS with the kernel's mark list (/proc/self/fdinfo) and the library tables compared with the reference model in every quiescent state; fixed point = all cycles",
-		BFS:       func(tier string) []*BFSDef { return []*BFSDef{bfsC12(tier), bfsC09(tier), bfsC04core(tier)} },
-		Jobs:      burst4Jobs,
-		Assume:    []string{"sequential histories with quiescence after each step"}}
+		BFS: func(tier string) []*BFSDef {
+			return []*BFSDef{bfsC12(tier), bfsC09(tier), bfsC04core(tier), bfsRec(tier)}
+		},
+		Jobs:   func(tier string) []Job { return append(burst4Jobs(tier), c12OpsJobs(tier)...) },
+		Assume: []string{"sequential histories with quiescence after each step"}}
+}
+
+// c12OpsJobs: add / delete / recreate / re-add cycles of watches that were requested with an explicit operation set:
+// without Remove in the set the kernel announces the end of the watch with IN_IGNORED alone, without Rename a
+// renamed watch stays where it is. Tables, kernel marks and WatchList are compared after every step as always.
+func c12OpsJobs(tier string) []Job {
+	var hs [][]string
+	var vars []map[string]any
+	for _, ops := range []string{"2", "10", "1", "8", "4", "1b", "17"} {
+		var cyc []string
+		for i := 0; i < 5; i++ {
+			cyc = append(cyc, "rm w/f", "touch w/f", "AW w/f "+ops)
+		}
+		hs = append(hs, cyc, []string{"mv w/f w/g", "touch w/f", "AW w/f " + ops, "write w/g", "rm w/g", "rm w/f"}, []string{"rmr w/d", "mkdir w/d", "AW w/d " + ops, "touch w/d/n", "rmr w/d"})
+		for i := 0; i < 3; i++ {
+			vars = append(vars, map[string]any{"init": []string{"AW w/f " + ops, "AW w/d " + ops}})
+		}
+	}
+	return chunk(map[string]any{"fix": "std"}, hs, vars, 4)
 }
